@@ -259,6 +259,9 @@ theorem backupPrelude_rsat (S : Spec) : RSat S backupPrelude (fun x => ∀ b ∈
   · exact RSat.fail
   · refine RSat.bind (ro_rsat S _root_.Conserve.lastBandId_ro) fun basisBand _ => ?_
     refine RSat.bind (RSat.of_ops (AllOps.ndw_good bandCreate_nhw) (fun _ _ _ => trivial)) fun band _ => ?_
+    refine RSat.bind (ro_rsat S _root_.Conserve.gcLockListed_ro) fun locked2 _ => ?_
+    split
+    · exact RSat.fail
     refine RSat.bind (ro_rsat S _root_.Conserve.listBlocks_ro) fun blocks _ => ?_
     cases basisBand with
     | none => exact RSat.ret (fun _ h => nomatch h)
